@@ -23,7 +23,8 @@ SliceOps(n) == CASE n = "C09" -> {"Generate", "Regenerate", "AddNode", "Link", "
               [] n = "C11" -> {"Generate", "AttachAttackers", "AddGAttacker", "RemoveGAttacker", "Compromise", "Undo", "RemoveNode"}
               [] n = "C13" -> {"Generate", "AddNode", "Link", "Analyse", "Prune", "AttachAttackers", "Touch"}
               [] n = "C14" -> {"Generate", "AttachAttackers", "Analyse", "DeepCopy", "RemoveNode", "Compromise", "Touch", "AddNode", "RemoveGAttacker"}
-              [] n = "C10" -> {"Generate", "AttachAttackers", "Analyse", "Prune", "Compromise", "Undo", "Touch", "SaveLoad"}
+              [] n = "C10" -> {"Generate", "AttachAttackers", "Analyse", "Prune", "Compromise", "Undo", "RemoveNode", "Touch", "SaveLoad"}
+              [] n = "C10R" -> {"Generate", "AttachAttackers", "Undo", "RemoveNode", "SaveLoad"}    \* removals before saving
               [] n = "C10F" -> {"Generate", "AddGAttacker", "Compromise", "SaveLoad"}
               [] n = "ALL" -> {"Generate", "Regenerate", "AddNode", "Link", "RemoveNode", "Prune", "Analyse", "AttachAttackers", "AddGAttacker", "RemoveGAttacker", "Compromise", "Undo", "DeepCopy", "SaveLoad", "Touch"}
               [] OTHER -> {"Generate"}
